@@ -127,6 +127,16 @@ Proof.
     by exact (Angle_neg_ang B HB).
   unfold epo, ang in *. pyrun. reflexivity.
 Qed.
+(* partial correctness made explicit: if the Earth callee fails, the same error comes out *)
+Lemma sun_geometric_error x :
+  Earth_geometric_heliocentric_position Rops (epo jde) (VBool flag) = VErr x ->
+  Sun_geometric_geocentric_position Rops (epo jde) (VBool flag) = VErr x.
+Proof. intros Hearth. unfold epo in *. pyrun. reflexivity. Qed.
+
+Lemma sun_apparent_error x :
+  Earth_apparent_heliocentric_position Rops (epo jde) (VBool flag) = VErr x ->
+  Sun_apparent_geocentric_position Rops (epo jde) (VBool flag) = VErr x.
+Proof. intros Hearth. unfold epo in *. pyrun. reflexivity. Qed.
 End Reflection.
 
 (* ---------------------------------------------------------------- rectangular coordinates *)
